@@ -114,6 +114,14 @@ def gen_desc(verif_seed: int, i: int, tier: str = "quick") -> dict:
             for k, v in override[loc].items():
                 argv += [opt, f"{k}={v}"]
         cfg["argv"] = argv
+        r2 = random.Random(rs ^ 0xE14)
+        if r2.random() < 0.3:
+            # the same configuration through the Python engine API: no probing phase touches the shared session first, so the
+            # workers meet it concurrently
+            cfg["via_engine_api"] = True
+            cfg["entry"] = "engine"
+            cfg["phases"] = [p for p in cfg["phases"] if p != "probing"]
+            cfg["workers"] = r2.choice([2, 3, 4])
     else:  # provider_run
         cfg["workers"] = rng.choice([2, 3, 4])
         cfg["provider"] = {
@@ -126,6 +134,11 @@ def gen_desc(verif_seed: int, i: int, tier: str = "quick") -> dict:
         }
         udesc["security"] = None
     base.update({"universe": udesc, "config": cfg, "schedule": gen.gen_schedule(rng, fault_free=rng.random() < 0.2)})
+    if cfg.get("via_engine_api"):
+        sch = base["schedule"]
+        if sch.get("kind") == "default":
+            sch.update({"kind": "rw", "seed": rs & 0xFFFFFFFF, "p_switch": 0.3, "p_tick": 0.0})
+        sch["p_line"] = max(sch.get("p_line", 0.0), 0.05)
     if sub == "provider_run" and base["schedule"].get("kind") != "default":
         base["schedule"]["p_line"] = max(base["schedule"].get("p_line", 0.0), 0.01)
     return base
@@ -157,6 +170,8 @@ EXPECTED_PROBES = ["wire_cli", "provider_run", "provider_threads", "lock_contend
 def fired_faults(desc: dict, res: dict) -> dict:
     st = res.get("stats") or {}
     out = {desc.get("sub", "?"): 1}
+    if desc.get("config", {}).get("via_engine_api"):
+        out["wire_engine_api"] = 1
     for k in ("token_expired", "exempt_probes", "fetches", "checked_requests"):
         if st.get(k):
             out[k] = st[k]
@@ -246,7 +261,10 @@ class C14Profile(Profile):
         from .. import workload as W
 
         sub = ctx.desc["sub"]
-        if sub == "wire_cli":
+        if sub == "wire_cli" and ctx.config.get("via_engine_api"):
+            W.install_links_shim()
+            W.run_engine(ctx)
+        elif sub == "wire_cli":
             W.run_cli(ctx)
         elif sub == "provider_run":
             self._run_provider(ctx)
